@@ -31,7 +31,7 @@ REQUIRED_BUCKETS = {"quick": ["op:+", "op:*", "op:@", "nested:product-in-sum", "
                               "zero:first-factor", "dispersity:>=2-components", "magnetic", "vector-component",
                               "python-component", "oriented-component", "lane:asan", "magnetic:all-sld-components", "magnetic:with-nonmagnetic-bystander",
                               "magnetic:with-python-bystander", "component-with-empty-mesh",
-                              "no-sld-parameter-in-mixture"]}
+                              "no-sld-parameter-in-mixture", "magnetic:no-positive-component"]}
 REQUIRED_BUCKETS["thorough"] = REQUIRED_BUCKETS["quick"]
 
 SFACTORS = ["hardsphere", "hayter_msa", "squarewell", "stickyhardsphere"]
@@ -180,6 +180,15 @@ def leaf_parameters(factor, rng, seedk, dim, want_zero=False, want_pd=True, want
             pars[s + "_M0"] = float(rng.uniform(0.5, 4.0))
             pars[s + "_mtheta"] = float(rng.uniform(-80, 80))
             pars[s + "_mphi"] = float(rng.uniform(-170, 170))
+            if seedk % 3 == 0:
+                # a magnetisation vector none of whose Cartesian components is positive (negative amplitude, first
+                # octant direction or the default angles)
+                pars[s + "_M0"] = -pars[s + "_M0"]
+                if seedk % 2:
+                    pars[s + "_mtheta"], pars[s + "_mphi"] = float(rng.uniform(5, 85)), float(rng.uniform(5, 85))
+                else:
+                    pars[s + "_mtheta"], pars[s + "_mphi"] = 0.0, 0.0
+                tags.add("mag-nonpositive")
             tags.add("mag")
     return i, pars, tags
 
@@ -361,6 +370,8 @@ def run_case(case, rec):
         rec.bucket("no-sld-parameter-in-mixture")
     if any("empty" in t for t in tags_all):
         rec.bucket("component-with-empty-mesh")
+    if any("mag-nonpositive" in t for t in tags_all):
+        rec.bucket("magnetic:no-positive-component")
     if anymag and pybystander:
         rec.bucket("magnetic:with-python-bystander")
     if anymag and bystander:
